@@ -27,18 +27,19 @@ from harness import fitting as FT
 from harness.core import MachineryError
 
 NPROC = 8
-INVS = ['DepsSelected', 'Multiplicity', 'OrderFree', 'ExactOptimal', 'Additive', 'Homogeneous', 'FamilyBijection', 'EmitF']
+INVS = ['DepsSelected', 'Multiplicity', 'OrderFree', 'RelabelFree', 'ExactOptimal', 'Additive', 'Homogeneous', 'FamilyBijection',
+        'EmitF']
 
 
 def cfg(nr, nc, *, cat, trainmax=3, rset='R12', thin_r=1, thin_1=1, thin_t=1, pats='Pat3', compmax=2, lingrid=1, init='FInit',
-        trace=False):
+        trace=False, kinds='NoKinds', maxfits=0):
     s = '\n'.join(['CONSTANTS', f'  NR = {nr}', f'  NC = {nc}', '  MaxObj = 1', '  MaxRows = 9', '  MaxPats = 9',
                    '  Depth = 0', '  NanPairs <- NanPairsNone', '  ArgLevel = 2', '  EmitMod = 1', '  Ops <- NoOps',
                    f'  Catalogue <- {cat}', f'  InterpOnly = {"TRUE" if init == "IInit" else "FALSE"}', f'  TrainMax = {trainmax}', f'  RSet <- {rset}', f'  ThinR = {thin_r}',
-                   f'  Thin1 = {thin_1}', f'  ThinT = {thin_t}', f'  PatSels <- {pats}', f'  CompMax = {compmax}', f'  LinGrid = {lingrid}', '  NFam = 4']) + '\n'
+                   f'  Thin1 = {thin_1}', f'  ThinT = {thin_t}', f'  PatSels <- {pats}', f'  CompMax = {compmax}', f'  LinGrid = {lingrid}', '  NFam = 4', f'  FitKinds <- {kinds}', f'  MaxFits = {maxfits}']) + '\n'
     if trace:
         return s + 'SPECIFICATION TSpec\nCHECK_DEADLOCK FALSE\n'
-    return s + f'INIT {init}\nNEXT FNext\n' + ''.join(f'INVARIANT {i}\n' for i in INVS) + 'CHECK_DEADLOCK FALSE\n'
+    return s + f'INIT {init}\nNEXT FNext\n' + ''.join(f'INVARIANT {i}\n' for i in INVS) + 'PROPERTY ModelFrame\nCHECK_DEADLOCK FALSE\n'
 
 
 def _prob_job(args):
@@ -48,6 +49,10 @@ def _prob_job(args):
         out, n_eval, stats = FT.check_problem(rec, comps, nc, rng, with_optimize=with_opt)
     except MachineryError as ex:
         return ('machinery', str(ex))
+    except Exception:
+        import traceback
+        return ('machinery', 'unexpected exception in check_problem on ' + json.dumps({k: rec[k] for k in ('basis', 'train', 'pidx')})
+                + '\n' + traceback.format_exc())
     return (out, n_eval, stats, len(comps))
 
 
@@ -69,7 +74,7 @@ def run_fit(ctx, name, nr, nc, opt_every=0, **kw):
     mid = groups[keys[len(keys) // 2]]
     ctx.sample({'run': name, 'problem': {k: mid['rec'][k] for k in ('basis', 'train', 'pidx', 'tmpl', 'deps', 'exact')},
                 'n_competitors_from_tlc': len(mid['comps'])})
-    jobs = [(groups[k]['rec'], groups[k]['comps'], nc, [ctx.seed, i], bool(opt_every and i % opt_every == 0))
+    jobs = [(groups[k]['rec'], groups[k]['comps'], nc, [ctx.seed, i], (0 if not (opt_every and i % opt_every == 0) else (2 if i % (4 * opt_every) == 0 else 1)))
             for i, k in enumerate(keys)]
     summ = {'problems': 0, 'pairs': 0, 'exact_directions_checked': 0, 'max_margin': {}}
     with mp.Pool(NPROC) as pool:
@@ -102,7 +107,8 @@ def _lin_job(args):
     for j, line in enumerate(lines):
         i = base + j
         # basis storage dtype x integer / fractional weights rotate over the emitted states
-        out += FT.check_lin(json.loads(line), nc, dtype=FT.DTYPES[i % 4], scale=(1.0 if (i // 4) % 2 == 0 else 0.25))
+        out += FT.check_lin(json.loads(line), nc, dtype=FT.DTYPES[i % 4], scale=(1.0 if (i // 4) % 2 == 0 else 0.25),
+                            index_kind=(i // 8) % 3)
     return out, len(lines)
 
 
@@ -149,11 +155,38 @@ def run_model(ctx, name, nr, nc, **kw):
         raise MachineryError(f'{name}: vacuous model run ({nf} family members, {nm} bases)')
 
 
+def run_sessions(ctx, name, nr, nc, **kw):
+    """several fits in a row on ONE model object: Fit leaves the model and the data alone (ModelFrame)"""
+    r = ctx.tlc('MC_Fitting', cfg(nr, nc, init='SInit', kinds='FitKindsA', maxfits=2, **kw), name=name, timeout=3000, workers=NPROC)
+    if not r.n_emitted:
+        raise MachineryError(f'{name}: TLC emitted no session')
+    ctx.sample({'run': name, 'session': next(r.iter_emitted())})
+    n = 0
+    with mp.Pool(NPROC) as pool:
+        for out, cnt in pool.imap_unordered(_sess_job, ((chunk, nc) for chunk in r.iter_lines(40))):
+            n += cnt
+            ctx.count(cnt * 4)
+            for key, what, case in out:
+                ctx.violation(key, what, dict(case, run=name))
+    ctx.traces += n
+    ctx.extra.setdefault('session_runs', {})[name] = n
+
+
+def _sess_job(args):
+    lines, nc = args
+    out = []
+    for line in lines:
+        out += FT.check_session(json.loads(line), nc)
+    return out, len(lines)
+
+
 def _trace_job(args):
     seed, const = args
     try:
         if seed % 6 == 5:
             return seed, FT.record_family_trace(seed)
+        if seed % 6 == 4:
+            return seed, FT.record_session_trace(seed, const)
         return seed, FT.record_trace(seed, const)
     except np.linalg.LinAlgError:
         return seed, {'skip': 'singular'}
@@ -181,7 +214,11 @@ def run_traces(ctx, ntr):
         raise MachineryError(f'only {len(traces)} of {ntr} recorded fit sessions are usable')
     # binding self-test
     corrupt = []
-    fit_tr = next(t for t in traces if t['hdr']['fitter'] != 'family')
+    fit_tr = next(t for t in traces if t['hdr']['fitter'] not in ('family', 'session'))
+    se_tr = next(t for t in traces if t['hdr']['fitter'] == 'session')
+    ts = json.loads(json.dumps(se_tr))
+    ts['ev'][-1]['mfp'] += 1
+    corrupt.append(ts)
     fam_tr = next(t for t in traces if t['hdr']['fitter'] == 'family' and len(t['ev'][-1]['subset']) >= 1)
     tf = json.loads(json.dumps(fam_tr))
     tf['ev'][-1]['subset'] = [x + 1 for x in tf['ev'][-1]['subset']]
@@ -212,6 +249,11 @@ def run_traces(ctx, ntr):
         if why == 'not-accepted':
             raise MachineryError(f'recorder produced a trace the specification cannot step through: seed {meta[idx]}')
         hdr = traces[idx]['hdr']
+        if hdr['fitter'] == 'session':
+            ev = traces[idx]['ev'][d.get('l', 1) - 1]
+            ctx.violation(f"C08/frame/trace/{ev['fit'][0]}/{ev['fit'][1]}/{why}", 'recorded session of fits on one model object leaves the specification',
+                          {'seed': meta[idx], 'diag': d, 'event': ev, 'hdr': hdr})
+            continue
         if hdr['fitter'] == 'family':
             ctx.violation(f'C08/family/trace/{why}', 'recorded ModelFamily member is not the subset the specification lists for its index',
                           {'seed': meta[idx], 'diag': d, 'event': traces[idx]['ev'][d.get('l', 1) - 1]})
@@ -245,6 +287,11 @@ def run(ctx):
     for key, what, case in FT.check_defaults(4, [[1, 2, 3, 1, 2, 1], [3, 1, 0, 2, 0, 1], [0, 1, 1, 3, 2, 2]]):
         ctx.violation(key, what, case)
     ctx.count(4)
+    # non-negative least squares terminates on rescaled bases (fixed probes; every fit runs under a per-call alarm)
+    pv, pn = FT.check_nn_probes()
+    ctx.count(pn)
+    for key, what, case in pv:
+        ctx.violation(key, what, case)
     if thorough:
         run_fit(ctx, 'f_3', 3, 3, cat='Cat3', trainmax=3, rset='R123', thin_1=2, thin_t=401, pats='Pat3', opt_every=25)
         run_fit(ctx, 'f_4_r1', 3, 4, cat='Cat4', trainmax=2, rset='R1', thin_r=1, thin_1=29, pats='Pat4', opt_every=25)
@@ -254,6 +301,7 @@ def run(ctx):
         run_lin(ctx, 'lin_3', 3, 3, cat='Cat3', lingrid=2)
         run_lin(ctx, 'lin_4', 3, 4, cat='Cat4', lingrid=1)
         run_model(ctx, 'model_4', 3, 4, cat='Cat4')
+        run_sessions(ctx, 'sess_4', 3, 4, cat='Cat4', trainmax=2, rset='R12', thin_r=13, thin_1=19, thin_t=499)
         run_model(ctx, 'model_3', 3, 3, cat='Cat3')
     else:
         run_fit(ctx, 'f_3', 3, 3, cat='Cat3', trainmax=3, rset='R12', thin_r=1, thin_1=5, thin_t=61, pats='Pat3', opt_every=10)
@@ -263,5 +311,7 @@ def run(ctx):
                 pats='Pat4Few')
         run_lin(ctx, 'lin_4', 3, 4, cat='Cat4K3', lingrid=1)
         run_model(ctx, 'model_4', 3, 4, cat='Cat4')
+        # sessions: two fits in a row (every ordered pair of 8 fitter x method kinds) on ONE model object
+        run_sessions(ctx, 'sess_4', 3, 4, cat='Cat4', trainmax=2, rset='R12', thin_r=13, thin_1=29, thin_t=997)
     ctx.exhaustive = thorough
     run_traces(ctx, 600 if thorough else 240)
